@@ -96,6 +96,16 @@ def programs(tier):
               "65497.0", "65496.5", "32768", "0", "1024", "&H400"]:
         progs.append(("poke-probe", f"10 POKE {a},0:POKE {a},V\n20 SOUND 1,1"))
         progs.append(("poke-probe", f"10 A=1:POKE {a},A+1"))
+    # the two speed pokes with a value operand that needs a runtime call: the call must still be made
+    for a in ["65496", "65497", "&HFFD8", "&HFFD9", "65497.0"]:
+        for v in ["BUTTON(0)", "VAL(INKEY$)", "INT(B/2)", "JOYSTK(1)+1", "POINT(1,2)"]:
+            progs.append(("poke-probe", f"10 POKE {a},{v}\n20 A=BUTTON(1)"))
+    # every numeric operand position of every statement kind once with an operand that needs a runtime call
+    for t in OPERAND_TEMPLATES:
+        if '"U#"' in t or t.startswith(("DATA", "CLEAR", "PCLEAR", "RGB")):
+            continue
+        for v in (["BUTTON(0)", "INT(B/2)"] if quick else ["BUTTON(0)", "INT(B/2)", "VAL(INKEY$)", "POINT(1,2)", "JOYSTK(0)"]):
+            progs.append(("function-operand-probe", "10 " + t.replace("#", v)))
     # nested conditionals with convertible functions in the inner condition / body
     for c in ["INKEY$=\"X\"", "BUTTON(0)=1", "INT(B)=2", "JOYSTK(0)>31", "POINT(1,2)=3", "VAL(B$)=1"]:
         progs.append(("nested-if-probe", f"10 IF A=1 THEN IF {c} THEN PRINT \"Y\"\n20 END"))
@@ -216,6 +226,11 @@ def cases(tier):
         if kind in ("empty-line-probe", "control-char-probe"):
             # bundled and not, filtered and not, pre-initialised and not
             for flags in ("1101110", "1100010", "1101010", "0100100", "1111011"):
+                add(kind, text, {"flags": flags, "storage": 32, "procname": "prog", "sizes": []})
+            continue
+        if kind == "refusal-probe":
+            # a refusal must not depend on an option: with and without the dispatcher suffix, the prologue, label filtering
+            for flags in ("1100000", "1001000", "0000100", "0101000", "1011010", "1111011"):
                 add(kind, text, {"flags": flags, "storage": 32, "procname": "prog", "sizes": []})
             continue
         nopt = 3 if kind in ("example",) else 1
